@@ -67,6 +67,27 @@ def check_lossless_rendering(ctx, rule: str) -> int:
         from gxstat.inline import loops_to_comprehensions
         from gxstat.srcmodel import parent
         fnode = loops_to_comprehensions(f.node)          # a list built by loop-append reads as the comprehension it is
+        # f-string spelling of a parameter line: f'{name!s}, {value!s}\n' in a comprehension over `.items()`
+        for comp_ in [x for x in ast.walk(fnode) if isinstance(x, (ast.ListComp, ast.GeneratorExp)) and isinstance(x.elt, ast.JoinedStr)
+                      and any('items()' in norm(g_.iter) for g_ in x.generators)]:
+            fvs = [v for v in comp_.elt.values if isinstance(v, ast.FormattedValue)]
+            lits = ''.join(v.value for v in comp_.elt.values if isinstance(v, ast.Constant) and isinstance(v.value, str))
+            if len(fvs) < 2 or ',' not in lits:
+                continue
+            n += 1
+            key = f'{f.qualname}/parameter-values-rendered-losslessly'
+            where = f'{f.module.rel}:{comp_.lineno}'
+            lossless = all(v.format_spec is None and v.conversion in (-1, 115, 114) and isinstance(v.value, ast.Name) for v in fvs)
+            lossy = any(v.format_spec is not None for v in fvs) or any(isinstance(x, ast.Call) and dotted_name(x.func) in ('round', 'format', 'np.round')
+                                                                       for v in fvs for x in ast.walk(v.value))
+            if lossless:
+                ctx.ok(rule, key, where, norm(comp_.elt)[:60])
+            elif lossy:
+                ctx.bad(rule, key, where,
+                        f'parameter values are written to the input file through `{norm(comp_.elt)[:60]}`, which rounds / formats floats: a dictionary '
+                        f'request no longer carries the values given (0.00125 becomes 0.0013) and disagrees with the same inputs written in a file')
+            else:
+                raise AnalysisError(f'{f.qualname}: value rendering `{norm(comp_.elt)[:60]}` not recognised (cannot decide)')
         for c in calls_in(fnode):
             if not (isinstance(c.func, ast.Attribute) and c.func.attr == 'join' and isinstance(c.func.value, ast.Constant) and
                     isinstance(c.func.value.value, str) and ',' in c.func.value.value and c.args):
